@@ -23,5 +23,7 @@ CFG = {
         "C12_faultfree_all_released is stated for runs without the enumerated frame-dropping steps (Model.FrameOwn.loses: frame for an unknown/finished exchange or swallowed by a tombed relay item, unparsable/unexpected frame taken from an exchange, message.write failing on a fresh frame, control message for a full send buffer) -- these leaks are permitted by the statement and documented, not reported",
         "use after release is only visible to the harness as damaged poison (writes) or poison in results (reads); reads that do not influence a result are covered by the model's access sites only"
     ],
-    "engine_timeout": 1200
+    "engine_timeout": 1800,
+    "search_rounds": 1,
+    "search_budget_s": 120
 }
